@@ -3,24 +3,24 @@ package main
 // Rules added after the third seeding round and the mechanical mutation sweep, per property (appended
 // to the property's explanation so that evidence and MANIFEST name every rule that can report).
 var laterRules = map[string]string{
-	"C01": "(R11) BlockRequestsEmpty answers true only where both request lists were found empty; (R12) processBlocks leaves with ProcessBlock's error only behind inequality tests against every sentinel ProcessBlock returns; (R13) admitted block requests go out (AddInvVect followed by a hand-over, replaced only after hand-over, new message after hand-over); (R14) CheckTimeouts: elapsed > constant limit per watched request, expired => non-nil error, request times loaded behind their nil tests; (R15) Node.restart is never called only behind isStopping()==true; (R16) ClearBlockRequestsAfter cuts right after the fork point; (R17) SetPendingSync only for an empty or single-header reply; (R18) NextBlock moves the last saved hash with the pop.",
-	"C02": "(R11) Revert collects the hashes of exactly the heights new tip+1 .. old tip (counted-loop interval of the getter's height argument); (R12) the recorded start height is LastHeight()+1.",
-	"C03": "(R13) fetched outputs are read at a bounded, advancing cursor; (R14) the in-mempool flag is never constant true where the mempool is not consulted; (R15) confirmation notifications follow a merkle-proof store and depth 0; (R16) parent-output index behind index < len; (R17) per-tx flag lists aligned with the delivered list; (R18) the parent read for an input is fetched in the same iteration.",
-	"C04": "(R8) confirmation notifications follow a merkle-proof store and depth 0 (literal depths are 0); (R9) MerkleProof codec pair.",
-	"C05": "(R9) the loop over a new tx's conflicts visits every conflict; (R10) the conflict accumulator extends itself; (R11) removal splices remove exactly one element; (R12) created mempool entries are registered; (R13) the conflict list never aliases an index list.",
-	"C06": "(R10) the cancel steps are reached only for conflicting txs other than the block tx itself.",
-	"C07": "(R7) the delay checker visits every newly safe tx; (R8) memPoolTx.trusted is set only from a trusted source.",
-	"C08": "(R8) subscribe / unsubscribe loops visit every listed push data; (R9) removal splices; (R10) IsRelevant answers true only behind checkContracts()==true or a subscribed hash comparing equal.",
-	"C09": "(R13) the three height getters agree on guards, cache index, file read and offset (linear normal forms); (R14) GetHeaders reads exactly maxCount heights from the resolved start; (R15) Revert's file walk starts below the tip's file; (R16) the latest headers start at LastHeight()-maxCount+1.",
+	"C01": "(R11) BlockRequestsEmpty answers true only where both request lists were found empty; (R12) processBlocks leaves with ProcessBlock's error only behind inequality tests against every sentinel ProcessBlock returns; (R13) admitted block requests go out (AddInvVect followed by a hand-over, replaced only after hand-over, new message after hand-over); (R14) CheckTimeouts: elapsed > constant limit per watched request, expired => non-nil error, request times loaded behind their nil tests; (R15) Node.restart is never called only behind isStopping()==true; (R16) ClearBlockRequestsAfter cuts right after the fork point; (R17) SetPendingSync only for an empty or single-header reply; (R18) NextBlock moves the last saved hash with the pop. (R19) NextBlock moves the last saved hash only together with the pop; (R20) the last-hash getter answers from each list only behind the exact emptiness tests of the newer lists.",
+	"C02": "(R11) Revert collects the hashes of exactly the heights new tip+1 .. old tip (counted-loop interval of the getter's height argument); (R12) the recorded start height is LastHeight()+1. (R13) every non-error path of ProcessBlock after blocks.Add passes the HandleHeaders announcement; (R14) a blocks.LastHash() value stored with SetLastHash is not read before a chain-moving call that precedes the store; (R15) genesis is registered at the constant height 0.",
+	"C03": "(R13) fetched outputs are read at a bounded, advancing cursor; (R14) the in-mempool flag is never constant true where the mempool is not consulted; (R15) confirmation notifications follow a merkle-proof store and depth 0; (R16) parent-output index behind index < len; (R17) per-tx flag lists aligned with the delivered list; (R18) the parent read for an input is fetched in the same iteration. (R19) the Add methods of the guarded channels hand over with a plain blocking send; (R20) constructor wiring: same-named same-typed parameters and fields / argument slots agree.",
+	"C04": "(R8) confirmation notifications follow a merkle-proof store and depth 0 (literal depths are 0); (R9) MerkleProof codec pair. (R10) no whole client.Tx / client.TxState is stored through a pointer the function did not allocate.",
+	"C05": "(R9) the loop over a new tx's conflicts visits every conflict; (R10) the conflict accumulator extends itself; (R11) removal splices remove exactly one element; (R12) created mempool entries are registered; (R13) the conflict list never aliases an index list. (R14) every iteration over a tx's inputs appends the outpoint (a skip only behind a lookup keyed by the whole outpoint); (R15) AddTransaction / AddRequest never reach removeTransaction or delete from the mempool maps.",
+	"C06": "(R10) the cancel steps are reached only for conflicting txs other than the block tx itself. (R11) = C05.R15.",
+	"C07": "(R7) the delay checker visits every newly safe tx; (R8) memPoolTx.trusted is set only from a trusted source. (R9) a store into MemPool.txs only behind the lookup having found no entry; (R10) stored flags safe / unsafe / trusted are only raised.",
+	"C08": "(R8) subscribe / unsubscribe loops visit every listed push data; (R9) removal splices; (R10) IsRelevant answers true only behind checkContracts()==true or a subscribed hash comparing equal. (R11) every iteration over the outputs hands the script to protocol.Deserialize.",
+	"C09": "(R13) the three height getters agree on guards, cache index, file read and offset (linear normal forms); (R14) GetHeaders reads exactly maxCount heights from the resolved start; (R15) Revert's file walk starts below the tip's file; (R16) the latest headers start at LastHeight()-maxCount+1. (R17) genesis is registered at the constant height 0 (reaching constant store of the height field).",
 	"C10": "(R8) = C09.R15, (R9) = C09.R13, (R10) = C02.R11.",
-	"C11": "(R7) the stored unconfirmed set is removed only where the in-memory set was found empty; (R8) SaveTxState writes only after serialising succeeded.",
-	"C12": "(R6) = C07.R8, (R7) = C02.R11, (R8) parent-output index of a peer's tx behind index < len.",
-	"C13": "(R11) a not-next header reaches AddBlockRequest only through the false edges of all three already-have tests; (R12) = C01.R13; (R13) = C01.R16; (R14) = C01.R18.",
-	"C14": "(R8) the request-age test applies to entries that were requested; (R9) created mempool entries are registered; (R10) a transmitted getdata batch is not carried into the next iteration; (R11) the request time is written only when requesting; (R12) CleanupBlock forwards on every successful path.",
-	"C15": "(R2) counted loops must run exactly `bound` times (trip-count normalisation); (R6) = C11.R8.",
-	"C16": "(R8) the drain loop is entered before routing (edge-threaded); (R11) removal splices; (R12) Headers responses routed by RequestHeight.",
-	"C19": "(R10) = C01.R15.",
-	"C18": "(R9) runConnection resets accepted / handshakeComplete before starting the connection's goroutines.",
+	"C11": "(R7) the stored unconfirmed set is removed only where the in-memory set was found empty; (R8) SaveTxState writes only after serialising succeeded. (R9) = C04.R10; (R10) = C07.R10.",
+	"C12": "(R6) = C07.R8, (R7) = C02.R11, (R8) parent-output index of a peer's tx behind index < len. (R9) the shared tx-processing path returns no error made on the spot beyond the two confirmed ones; (R10) constructor wiring (= C03.R20).",
+	"C13": "(R11) a not-next header reaches AddBlockRequest only through the false edges of all three already-have tests; (R12) = C01.R13; (R13) = C01.R16; (R14) = C01.R18. (R15) = C01.R20; (R16) = C01.R19.",
+	"C14": "(R8) the request-age test applies to entries that were requested; (R9) created mempool entries are registered; (R10) a transmitted getdata batch is not carried into the next iteration; (R11) the request time is written only when requesting; (R12) CleanupBlock forwards on every successful path. (R13) every return of the tx handlers is behind the hand-over to the tx channel, a foreign message type or a node that is not ready; (R14) constructor wiring (= C03.R20).",
+	"C15": "(R2) counted loops must run exactly `bound` times (trip-count normalisation); (R6) = C11.R8. (R2, presence clause) a bool written directly in front of an optional part has exactly the condition under which the part is written.",
+	"C16": "(R8) the drain loop is entered before routing (edge-threaded); (R11) removal splices; (R12) Headers responses routed by RequestHeight. (R13) each internal request / response / handler channel of RemoteClient is sent on by its one confirmed sender.",
+	"C19": "(R10) = C01.R15. (R2) select send states on the guarded channels are judged like plain sends.",
+	"C18": "(R9) runConnection resets accepted / handshakeComplete before starting the connection's goroutines. (R10) after a failed handleMessage the handling loop is left.",
 }
 
 const sharedRules = " Shared discipline rules over the functions this property's rules examine: (E1) a failed call is not answered with a nil error (frozen exceptions), (E2) a succeeded call's nil error is not returned as the result, (E3) a value found nil is not used on that branch, (E4) same-typed arguments are not swapped against parameter names, (E5) no function gains an early-exit loop over a collection relative to the recorded tree, (E6) results of a failed call are not used on the failure branch, (E7) a map lookup's value is not used where the key is absent, (E8) a removal inside a searching loop is behind the match."
